@@ -321,6 +321,23 @@ def run_c13(ctx, spec, out):
         case = {"text": json.dumps(h.steps)[:200], "dataset": None, "extra": {"history": h.steps, "world": wb.get("sources"), "lines": h.impl}}
         ok = True
         nmut = 0
+        # the statements of the property, evaluated on the implementation's own bookkeeping after every step
+        stale = None
+        for l in h.impl:
+            if l.get("op") == "world":
+                stale = l["world"]["config"].get("stale_backend_timeout")
+        for i, (cid, kind, what) in enumerate(h.checks):
+            a = impl.get(cid) or {}
+            st = a.get("state") or {}
+            if not st:
+                continue
+            if st.get("status") == 0 and (not st.get("has_data") or st.get("last_error")):
+                v.violations.append(("property", case, "step %d (%s): the backend is reported up without data or with an error (has_data=%s, last_error=%r)" % (i, what, st.get("has_data"), st.get("last_error"))))
+                break
+            if a.get("err") and stale is not None and not st.get("last_online_zero") and float(st.get("last_online_ago", 0)) > stale and (st.get("status") != 2 or st.get("has_data")):
+                v.violations.append(("property", case, "step %d (%s): the contact failed %ss after the last successful one (StaleBackendTimeout %s) but the backend is not down / keeps its data: status=%s has_data=%s"
+                                     % (i, what, st.get("last_online_ago"), stale, st.get("status"), st.get("has_data"))))
+                break
         for i, (cid, kind, what) in enumerate(h.checks):
             if not ok:
                 break
@@ -696,7 +713,7 @@ def run_c11(ctx, spec, out):
         final = [cid for cid in h.queries if cid not in before]
         for cid in final:
             sid = hs.query(h.queries[cid]["text"], [wb])
-            spec_pairs.append((cid, sid + 10**7 * (hi + 1), h.queries[cid]))
+            spec_pairs.append((cid, sid + 10**7 * (hi + 1), dict(h.queries[cid], extra=dict(h.queries[cid].get("extra") or {}, lines=[l for l in h.impl if l["id"] <= cid]))))
         for l in hs.model:
             l2 = dict(l)
             l2["id"] = l["id"] + 10**7 * (hi + 1)
